@@ -404,8 +404,15 @@ def run_case(case):
 
     # ---- D: edit a species, regenerate the defaults ---------------------------------
     V = desc["h"] ** 3
-    orig_state = np.array(system.state.value, dtype=float)
-    orig_units = si.sys_of(system.state.units.sys)
+    # baseline for the frame condition: the defaults as the library itself generates them (the system may have been built
+    # from a per-species dictionary holding the same amounts in other units, equal only up to rounding)
+    sys_state_before = np.array(system.state.value, dtype=float).tobytes()
+    try:
+        c.set_default_state()
+    except Exception:
+        pass
+    orig_state = np.array(c.state.value, dtype=float)
+    orig_units = si.sys_of(c.state.units.sys)
     orig_chem = np.array(system.chemostats)
     d2 = copy.deepcopy(desc)
     for rnd in range(2):
@@ -481,7 +488,7 @@ def run_case(case):
         except Exception as e:
             stg.add("set_default_chemostats after editing a species: exception", error=err(e), new_chstt=newc, **w)
     # the original system must not have been touched by what was done to its deep copy (harness sanity)
-    if system.state.value.tobytes() != orig_state.tobytes():
+    if np.array(system.state.value, dtype=float).tobytes() != sys_state_before:
         raise RuntimeError("harness: original system changed while working on the copy")
     info["bad"] = stg.bad
     return info
